@@ -448,12 +448,11 @@ func TestProp(t *testing.T) {
 }
 
 // reflectedKpasswdReply switches on the password change whose reply carries the request's own KRB-PRIV (variant "chgpw-reflected":
-// a faulty kpasswd server, or anybody on the network path - no key is needed). It is OFF because gokrb5 as it stands breaks the
-// property there: Client.ChangePasswd does not verify the AP-REP and does not check the direction (s-address) of the KRB-PRIV, so
-// the reflected message decrypts under the subkey, its user-data - the ChangePasswdData holding the NEW PASSWORD - is taken for
-// result code + result string, and the returned error reads "error response from kadmin: code: 12362; result: <new password ...>".
-// A replay file of that finding still runs the variant.
-const reflectedKpasswdReply = false
+// a faulty kpasswd server, or anybody on the network path - no key is needed). Before /repo 9970178 (see KNOWN_FINDINGS.jsonl, C20
+// "fixed") the reflected message decrypted under the subkey, its user-data - the ChangePasswdData holding the NEW PASSWORD - was
+// taken for result code + result string, and the returned error read "error response from kadmin: code: 12362; result: <new
+// password ...>". The variant stays on so that the leak is reported again if it ever returns.
+const reflectedKpasswdReply = true
 
 var worldLocks sync.Map
 
